@@ -165,7 +165,7 @@ func sequences(first, depth int, f func([]ls.SMsg)) {
 }
 
 func senderSpace(first int) {
-	maxDepth := ctx.Pick(4, 5)
+	maxDepth := ctx.Pick(4, 6)
 	for depth := 1; depth <= maxDepth; depth++ {
 		sequences(first, depth, func(seq []ls.SMsg) {
 			for el := uint(0); el < 1<<uint(depth); el++ {
@@ -344,7 +344,7 @@ func main() {
 	ctx.Sample(map[string]interface{}{"messages": []string{"NoteOn0a", "NoteOn0b", "SPP"}, "wire": "90 3C 40 | 3E F8 00 | F2 01 7F", "note": "running status, real-time byte inside a message, three Send calls with 0/1/5 ms"})
 	ctx.Guard(ctx.GetInt("states") > 100, "product too small")
 	ctx.Guard(ctx.NontrivialCount() > 100, "running status never elided")
-	ctx.Finish("(a) BFS over sender-legal single-byte Sends (23 byte classes) on the product decoder-state x reference-receiver x sender automaton to the fixpoint; (b) message sequences up to depth 3/4 over 18 messages x all legal running-status elisions, bytewise and single-chunk; depth <= 2: every partition into Send calls x time deltas {0,1,5} ms, one real-time byte at every position x every partition, two real-time bytes at every pair of positions; non-trivial = serialisations with at least one elided status byte")
+	ctx.Finish("(a) BFS over sender-legal single-byte Sends (23 byte classes) on the product decoder-state x reference-receiver x sender automaton to the fixpoint; (b) message sequences up to depth 4 (thorough 6) over 18 messages x all legal running-status elisions, bytewise and single-chunk; depth <= 2: every partition into Send calls x time deltas {0,1,5} ms, one real-time byte at every position x every partition, two real-time bytes at every pair of positions; non-trivial = serialisations with at least one elided status byte")
 }
 
 func replay() {
